@@ -596,7 +596,7 @@ func runC03(r *core.Run, tier string) {
 		r.Inconclusive("fc does not build: " + err.Error())
 		return
 	}
-	n := 120
+	n := 300
 	if tier == "thorough" {
 		n = 2000
 	}
